@@ -58,6 +58,11 @@ def call_once(method, cfg, pil, case):
         if "not enough values to unpack" in str(e):
             return {"err": "no_ranked_groups"}
         raise
+    except IndexError as e:
+        # multPEP: optimize_hyperparameters indexes an empty score table when no group has evidence
+        if "too many indices for array" in str(e):
+            return {"err": "no_ranked_groups"}
+        raise
     except Exception as e:
         if "No proteins with scores found" in str(e):
             return {"err": "no_ranked_groups"}
